@@ -877,6 +877,18 @@ func (rule *RuleExpression) checkMatrixExpression(expr *String) *ObjectType {
 	// The type may be shared with contexts such as 'inputs' or 'github'. Copy it before modifying it
 	matTy = matTy.DeepCopy().(*ObjectType)
 
+	// Each row of matrix is an array of the values. Type of matrix.<row> is type of the element
+	for n, p := range matTy.Props {
+		if n == "include" || n == "exclude" {
+			continue
+		}
+		if a, ok := p.(*ArrayType); ok {
+			matTy.Props[n] = a.Elem
+		} else {
+			matTy.Props[n] = AnyType{}
+		}
+	}
+
 	// Consider properties in include section elements since 'include' section adds matrix values
 	incTy, ok := matTy.Props["include"]
 	if ok {
@@ -896,6 +908,9 @@ func (rule *RuleExpression) checkMatrixExpression(expr *String) *ObjectType {
 	}
 
 	delete(matTy.Props, "exclude")
+
+	// Rows cannot be enumerated statically in general when the matrix is constructed by expression
+	matTy.Loose()
 
 	return matTy
 }
